@@ -10,6 +10,11 @@ TRUST = ("Trusted: Lean 4.33 kernel (axioms ⊆ {propext, Classical.choice, Quot
 
 # id -> (category, text, note, technique, design_ref)
 CLAIMS = {
+ "C11": ("proof",
+         "Lean theorems over the validated whole-pipeline model, for every include node, option combination, context and `go`: after an include the includer's context (variables, macros, blocks, flags) is exactly what it was (C11_non_interference, built on evalX_ctx: expression evaluation never changes the context); the included template sees the `with` variables (last duplicate wins) over the includer's visible variables, only the `with` variables under `only`, the flattened copy of the whole scope chain under `sandboxed` (C11_visibility_*); a missing template is empty output under `ignore missing` and notFound otherwise, any other failure propagates even with `ignore missing` (C11_ignore_missing, _only_missing, _existing_failure_reported). "
+         "Tie: 4 variable names × unset/context/set-before × with/only/ignore missing/sandboxed × static/computed/missing/failing target × placement at top level, in a loop, block, macro, nested include; view of the included template and probes before/after checked against the scope rule on the real engine and against the Lean pipeline.",
+         TRUST + "The includer's macros are hidden from a sandboxed include and loop variables stay bound after a loop — modelled as in Go; the property is silent on both.",
+         "Lean 4 proof (frame reasoning over the context chain) + differential correspondence + scope-rule oracle", "DESIGN.md §4 C11"),
  "C03": ("proof",
          "Lean permutation-invariance lemma per loop schema (copy-all, delete-all, collect-then-sort, any-match, min-key, keyed copy, guarded fallback …) and C03_sites_order_independent: every `range` over a map and every reflect MapKeys/MapRange call in the package, regenerated from the Go source with its schema, is order-insensitive or in a justified allow-list; the key comparator of sortedMapKeys is modelled and proved a total order on everything observable (C03_sorted_keys_total_order, any number of NaN keys), hash literals are last-wins in source order, merge is stable, the date-format translation is a single left-to-right pass (C03_dateformat_single_pass). "
          "Tie: 46 extracted map-iteration sites re-classified on every run; programs over nested/typed/interface-keyed maps rendered 30× in-process and in child processes; 16 155 date formats against time.Format of the model's layout. Known findings: printing addresses / macro objects, pointer keys with equal content, printing a map with several NaN keys.",
